@@ -358,7 +358,7 @@ def check_sched(pid, spec, args):
         if race is not None:
             cov["race_probe"] = race.get("summary")
         write_evidence(pid, tier, seed, spec, cov, wall, len(violations))
-        print("%s %s: %d runs (%d distinct non-trivial), %d steps, %.1fs wall" % (pid, tier, runs, distinct, cov["scheduler_steps"], wall))
+        print("%s %s: %d evaluations (%d distinct non-trivial), %d scheduler steps, %.1fs wall" % (pid, tier, runs, distinct, cov.get("scheduler_steps", 0), wall))
         vac = None
         if runs == 0 or cov["nontrivial_runs"] == 0:
             vac = "no non-trivial run was executed"
